@@ -171,3 +171,36 @@ Theorem C16_default_accepts_neutral : forall sb D x lead trail junk t,
   exists t', parse_ex_cstr sb t (render_xdoc lead x trail ++ junk) = PR t' (Some (value sb (erase x))) /\ err t' = TE_success.
 Proof. exact default_accepts_neutral. Qed.
 Print Assumptions C16_default_accepts_neutral.
+
+(* ---- the allow-trailing-characters clause (TokStrictTrail.v) ----
+   With JSON_TOKENER_ALLOW_TRAILING_CHARS strict mode accepts ANY valid document followed by
+   trailing bytes and reports where the value ended (the end position is the end of the
+   document incl. its trailing blanks).  Guard on the first trailing byte only (tjunk_ok):
+   not a blank (else the end position lies behind it) and, when no blank separates it from
+   the value, not a byte a number token would absorb; in default mode not '/' (a comment).
+   [trailing_accepted_len] is the explicit-length entry. *)
+From JC Require Import TokStrictTrail.
+
+Theorem C16_strict_allow_trailing : forall sb D s lead trail junk t,
+  wf_stx s -> all_ws lead = true -> all_ws trail = true ->
+  Z.of_nat (nest s) < D -> ints_in_range s = true -> names_nul_free s = true ->
+  tjunk_ok true trail junk = true ->
+  tok_new D true true false = Some t ->
+  exists t', parse_ex_cstr sb t (render_doc lead s trail ++ junk) = PR t' (Some (value sb s)) /\
+             err t' = TE_success /\ char_offset t' = zlen (render_doc lead s trail).
+Proof. exact strict_allow_trailing. Qed.
+Print Assumptions C16_strict_allow_trailing.
+
+Theorem C16_trailing_accepted_len : forall sb D sf al s lead trail j js t,
+  wf_stx s -> all_ws lead = true -> all_ws trail = true ->
+  Z.of_nat (nest s) < D -> ints_in_range s = true -> names_nul_free s = true ->
+  tjunk_ok sf trail (j :: js) = true -> mode_ok sf al = true ->
+  tok_new D sf al false = Some t ->
+  exists t', parse_ex sb t (render_doc lead s trail ++ j :: js) = PR t' (Some (value sb s)) /\
+             err t' = TE_success /\ char_offset t' = zlen (render_doc lead s trail).
+Proof. exact trailing_accepted_len. Qed.
+Print Assumptions C16_trailing_accepted_len.
+
+Theorem C16_trailing_example : trail_example_ok = true.
+Proof. exact trail_example. Qed.
+Print Assumptions C16_trailing_example.
